@@ -19,6 +19,7 @@ EXPLANATION = (
     "predicting y_i from the rest; *_gradient variants return the same value and, per component, the symbolic derivative "
     "(mean slice, covariance slice in the advertised order); multi-start selection (L-BFGS-B replaced by its contract) "
     "returns hyper-parameters inside the bounds scoring at least as well as the centre of the box."
+    ' Errors are given both as standard deviations and as a full symmetric covariance matrix (y_cov).'
 )
 BOUNDS = {"quick": "n<=2 data points (LOO n<=3 values), <=2 hyper-parameters per part, 2 optimiser starts",
           "thorough": "n=3 data points (abstract kernel), real-kernel gradient variants n=2 (explicit Cholesky for n=3 undecided within 120 s), 3 optimiser starts"}
@@ -53,7 +54,7 @@ def _lower_uf(h, n, p, th):
     return at
 
 
-def _setup(h, n, pk, pm, with_param_chol=True):
+def _setup(h, n, pk, pm, with_param_chol=True, errform="err"):
     import inference.gp.regression as rg
     cv, mn = gc.patch_cov(h)
     h.patch(rg, solve_triangular=stubs.solve_triangular, zeros=ozeros)
@@ -62,6 +63,13 @@ def _setup(h, n, pk, pm, with_param_chol=True):
     dt = object if h.sym else float
     e = h.real("yerr", n, pos=True)
     S = np.diag(e ** 2)
+    if errform == "cov":
+        # errors given as a full covariance matrix: arbitrary symmetric off-diagonal terms (positive definiteness of the
+        # total K + S is carried by the L L^T parametrisation)
+        S = np.array(S, dtype=dt)
+        for i in range(n):
+            for j in range(i):
+                S[i, j] = S[j, i] = h.real(f"ycov_{i}_{j}")
     x = h.real("x", (n, 1))
     y = h.real("y", n)
     Lat = _lower_uf(h, n, pk, None)
@@ -121,7 +129,10 @@ def _setup(h, n, pk, pm, with_param_chol=True):
         return Lm.copy() if h.sym else np.linalg.cholesky(np.asarray(K, dtype=float))
     h.patch(rg, both=True, cholesky=chol)
     th0 = h.real("th0", pm + pk)
-    gp = rg.GpRegressor(x, y, y_err=e, hyperpars=th0, kernel=AbsKernel(), mean=AbsMean())
+    if errform == "cov":
+        gp = rg.GpRegressor(x, y, y_cov=S, hyperpars=th0, kernel=AbsKernel(), mean=AbsMean())
+    else:
+        gp = rg.GpRegressor(x, y, y_err=e, hyperpars=th0, kernel=AbsKernel(), mean=AbsMean())
     return rg, gp, x, y, e, S, Lat, mfs, current
 
 
@@ -145,9 +156,10 @@ def _ref_lml(h, gp, y, Lat, mfs, th, pm):
     return -0.5 * (r @ beta) - 0.5 * logdet
 
 
-@unit("C11", quick=[dict(n=1, pk=1, pm=1), dict(n=2, pk=2, pm=1)], thorough=[dict(n=3, pk=2, pm=2), dict(n=2, pk=2, pm=2)], cost=4)
-def marginal_likelihood_is_mvn_logpdf(h, n, pk, pm):
-    rg, gp, x, y, e, S, Lat, mfs, cur = _setup(h, n, pk, pm)
+@unit("C11", quick=[dict(n=1, pk=1, pm=1), dict(n=2, pk=2, pm=1), dict(n=2, pk=1, pm=1, errform="cov")],
+      thorough=[dict(n=3, pk=2, pm=2), dict(n=2, pk=2, pm=2), dict(n=3, pk=1, pm=1, errform="cov")], cost=4)
+def marginal_likelihood_is_mvn_logpdf(h, n, pk, pm, errform="err"):
+    rg, gp, x, y, e, S, Lat, mfs, cur = _setup(h, n, pk, pm, errform=errform)
     th = h.real("th", pm + pk)
     val = gp.marginal_likelihood(th)
     h.eq("marginal_likelihood == -1/2 r^T (K+S)^-1 r - 1/2 log det(K+S)", val, _ref_lml(h, gp, y, Lat, mfs, th, pm))
@@ -197,9 +209,10 @@ def _loo_ref(h, y, mvec, KS):
     return np.array(mus, dtype=dt), np.array(vars_, dtype=dt)
 
 
-@unit("C11", quick=[dict(n=2, pk=1, pm=1), dict(n=3, pk=1, pm=1, grad=False)], thorough=[dict(n=3, pk=2, pm=1)], cost=6, timeout_ms=60000)
-def loo_equals_actual_deletion(h, n, pk, pm, grad=True):
-    rg, gp, x, y, e, S, Lat, mfs, cur = _setup(h, n, pk, pm)
+@unit("C11", quick=[dict(n=2, pk=1, pm=1), dict(n=3, pk=1, pm=1, grad=False), dict(n=2, pk=1, pm=1, errform="cov"), dict(n=3, pk=1, pm=1, grad=False, errform="cov")],
+      thorough=[dict(n=3, pk=2, pm=1)], cost=6, timeout_ms=60000)
+def loo_equals_actual_deletion(h, n, pk, pm, grad=True, errform="err"):
+    rg, gp, x, y, e, S, Lat, mfs, cur = _setup(h, n, pk, pm, errform=errform)
     th = h.real("th", pm + pk)
     gp.set_hyperparameters(th)
     Lm, _ = Lat(th[pm:])
